@@ -304,6 +304,13 @@ def check_C19(b, A):
     # the base of a number is presentation in AT&T syntax too: $16 = $0x10 = $0X10, 8(%ebx) = 0x8(%ebx) = 0X8(%ebx)
     for (t, c) in got:
         if c is None or set(c) != s0: continue
+        t_up = re.sub(r'%([a-z][a-z0-9]*)', lambda m: '%' + m.group(1).upper(), t)
+        if t_up != t:
+            c2, crash = safe_asm(t_up, True)
+            if c2 is None:
+                res.append(('att-upper-regs-rejected', A['mnem'], '%r assembles but its spelling %r is rejected%s' % (t, t_up, (' (%s)' % crash) if crash else '')))
+            elif set(c2) != s0:
+                differ('att-upper-regs', t_up, c2)
         for tag, pre in (('att-hex', '0x'), ('att-hex-upper', '0X')):
             hx = lambda m: m.group(1) + m.group(2) + pre + '%X' % int(m.group(3))
             t2 = re.sub(r'(\$)(-?)(\d+)\b', hx, t)
@@ -395,6 +402,11 @@ def _work(job):
                         cands.append('%s %s' % (mm, ops[0])); cands.append('%s %s' % (mm, ops[1]))
                         if ops[0] == ops[1] == '%st(0)': cands.append('%s %%st' % mm)
                 x87.append((b, A, li, sorted(set(cands))))
+            elif A['mnem'] in ('fnstsw', 'fstsw') and len(A['ops']) == 1 and A['ops'][0][0] == 'reg' and not A['prefixes']:
+                # status word to ax: the register operand may be written or left out
+                try: li = asmgen.render_intel(A)
+                except asmgen.Unprintable: continue
+                x87.append((b, A, li, ['%s %%ax' % A['mnem'], '%s %%AX' % A['mnem'], A['mnem']]))
         gi = asmgen.gnu_as([x[2] for x in x87], 'intel')
         flat = [(k, t) for k, x in enumerate(x87) for t in x[3]]
         ga = asmgen.gnu_as([t for _, t in flat], 'att')
